@@ -72,6 +72,12 @@ func errValueIs(v ssa.Value, ctor *ssa.Function, codes []string, depth int) (boo
 		if h == nil || h.Blocks == nil || h.Pkg == nil || !strings.HasPrefix(h.Pkg.Pkg.Path(), an.ModPath) {
 			return false, "returns the result of " + call.String() + ", not " + ctor.Name()
 		}
+		// a helper is looked into only if it returns an error-typed value built by ctor; another constructor
+		// (NewClientErr where NewFatalClientErr is documented) is a different error class, not a helper
+		sigRes := h.Signature.Results()
+		if sigRes.Len() == 0 || !an.IsErrorType(sigRes.At(sigRes.Len()-1).Type()) {
+			return false, "returns the result of " + h.Name() + ", not " + ctor.Name()
+		}
 		for _, r := range an.Returns(h) {
 			e := errOperand(r)
 			if e == nil || an.IsNilConst(e) {
